@@ -140,6 +140,53 @@ def gen(rng, tier):
             lines.append("ENDHIST")
             hists.append((hid, ds, w, m, 1 << 22, qs))
         lines.append("DROP " + ds.did)
+    # column names and values that contain the printed forms of other expressions (String() of
+    # the library, the query language, separators): a key derived from a rendering that does not
+    # delimit its parts would confuse a one-operand node over such a column with a two-operand
+    # node over ordinary columns
+    weird = [b'a "x") (EQUAL b', b'a = "x" & b', b"a\x01x\x01b", b"a=x,b", b"(EQUAL a", b'a" "x']
+    rows = [{b"a": b"x", b"b": b"y"}, {b"a": b"x", b"b": b"z"}, {b"a": b"w", b"b": b"y"}, {b"a": b"x"}, {b"b": b"y"}]
+    for i, wcol in enumerate(weird):
+        rows += [{wcol: b"y"}] * (i + 2) + [{wcol: b"y", b"a": b"x"}]
+    rows += [{b"a": b'x") (EQUAL b "y', b"b": b"q"}, {b"a": b'x" & b = "y', b"b": b"q"}]
+    ds = dp.Dataset("hq", rows, "names-that-look-like-expressions")
+    lines += ds.lines()
+    ax, by = dp.e_eq(b"a", b"x"), dp.e_eq(b"b", b"y")
+    seq = []
+    for wcol in weird:
+        wy = dp.e_eq(wcol, b"y")
+        seq += [("A", [ax, by]), ("A", [wy]), ("O", [ax, by]), ("O", [wy]), ("N", ("A", [ax, by])), ("N", ("A", [wy])), wy, ("N", wy)]
+    seq += [dp.e_eq(b"a", b'x") (EQUAL b "y'), ("A", [ax, by]), dp.e_eq(b"a", b'x" & b = "y'), ("A", [dp.e_eq(b"a", b'x") (EQUAL b "y')]), ("A", [ax, by])]
+    for hn, (w, m, order) in enumerate([("mem", "ondemand", 1), ("big", "preload", -1)]):
+        sq = seq[::order]
+        hid = "hq.t%d" % hn
+        lines.append("HIST %s hq %s %s %d %d" % (hid, w, m, 1 << 22, len(sq)))
+        qs = []
+        for j, e in enumerate(sq):
+            q = dp.Query("%s.%d" % (hid, j), ds, w, m, e, [], 0)
+            lines.append("HQ %s hq %s %s %s GB 0" % (q.qid, w, m, dp.enc_expr(e)))
+            qs.append(q)
+        lines.append("ENDHIST")
+        hists.append((hid, ds, w, m, 1 << 22, qs))
+    lines.append("DROP hq")
+    # more operands than any one byte of an operand key can tell apart: 700 AND / OR nodes that
+    # differ only in their first operand (pigeonhole against keys built from part of the
+    # operand keys)
+    rows = [({b"c": b"v%d" % i, b"d": b"z"} if i % 3 == 0 else {b"c": b"v%d" % i}) for i in range(700)]
+    ds = dp.Dataset("hp", rows, "pigeonhole")
+    lines += ds.lines()
+    dz = dp.e_eq(b"d", b"z")
+    seq = [("A", [dp.e_eq(b"c", b"v%d" % i), dz]) for i in range(700)] + [("O", [dp.e_eq(b"c", b"v%d" % i), dp.e_eq(b"c", b"v%d" % (i + 1)), dz]) for i in range(0, 698, 7)]
+    hid = "hp.t0"
+    lines.append("HIST %s hp mem preload %d %d" % (hid, 1 << 24, len(seq)))
+    qs = []
+    for j, e in enumerate(seq):
+        q = dp.Query("%s.%d" % (hid, j), ds, "mem", "preload", e, [], 0)
+        lines.append("HQ %s hp mem preload %s GB 0" % (q.qid, dp.enc_expr(e)))
+        qs.append(q)
+    lines.append("ENDHIST")
+    hists.append((hid, ds, "mem", "preload", 1 << 24, qs))
+    lines.append("DROP hp")
     return lines, hists
 
 
